@@ -118,12 +118,12 @@ def ensure_built(jobs: int = NPROC, need: Sequence[str] = ()) -> Tuple[bool, str
             out.append(o)
             if rc != 0:
                 return False, "\n".join(out)
-        rc, o = _run(["make", "-k", f"-j{jobs}"], cwd=COQ, timeout=3000)
+        rc, o = _run(["make", "-k", f"-j{jobs}", "COQC=timeout 900 coqc"], cwd=COQ, timeout=3000)
         out.append(o[-6000:])
         if rc != 0:
             if not need:
                 return False, "\n".join(out)
-            rc, o = _run(["make", f"-j{jobs}", "Extract/Dispatch.vo", *need], cwd=COQ, timeout=3000)
+            rc, o = _run(["make", f"-j{jobs}", "COQC=timeout 900 coqc", "Extract/Dispatch.vo", *need], cwd=COQ, timeout=3000)
             out.append(o[-3000:])
             if rc != 0:
                 return False, "\n".join(out)
